@@ -72,8 +72,25 @@ def main():
                  "(C) an INTERLEAVING of calls on TWO live objects (two Experiments, two generator instances, two Randomizers, a generator and its deepcopy) in alternation, where the calls on one object disturb "
                  "the other; each object used alone behaves exactly as before.  No id()-keyed or value-keyed module caches (earlier rounds did that).  Do not use tolerance tricks, dtype overflow, size thresholds / block "
                  "buffers / fast paths selected by a size constant, or seed-value-dependent behaviour.  Earlier rounds already produced these changes, so choose something different: {prev}.")
+    if suffix == "l":
+        EXTRA_L_A = ("this round has a FORCED category: TWO COOPERATING EDITS in two different functions (preferably in two different modules, e.g. a helper in utils.py "
+                     "and one of its callers, or a shared p-value / ranking helper and one caller): each edit alone must leave every result and every random draw of every public function "
+                     "bit-identical to the original (show this in notes.md by testing each half alone against the original on a broad battery), and only the combination breaks the property, "
+                     "and only for particular inputs.  Typical shapes: a helper starts returning a view / a differently ordered or typed result that all current callers normalise, and one caller "
+                     "drops its normalisation; a default value moves from the callee to the caller and one path forgets it; a flag changes meaning consistently in all but one place; an off-by-one "
+                     "is compensated in the caller for all but one branch.  Do not use tolerance tricks, dtype overflow, size thresholds, caches, seed-dependent behaviour or failure paths "
+                     "(state left behind by a call that raises) -- earlier rounds did those.  Earlier rounds already produced these changes, so choose something different: {prev}.")
+        EXTRA_L_C = ("this round has a FORCED category: an INTERLEAVING of calls on TWO LIVE OBJECTS, while every object used alone (any sequence of calls on it, including failed calls) "
+                     "behaves exactly as before, bit for bit.  Examples: two Experiments (or two Randomizers, two generator instances, a generator and its deepcopy, two result arrays, two "
+                     "distr / ratings / incidence matrices of different shapes) used in alternation, where a call on one disturbs what the next call on the other returns -- through a shared "
+                     "class attribute or default-argument object, a module-level scratch buffer or lookup list, an object that both were built from (the same label array, the same Randomizer, "
+                     "the same callable) and that one of them now mutates, or an alias between a RESULT of one call and an internal object used by calls on the other.  No id()- or value-keyed "
+                     "caches.  Do not use tolerance tricks, dtype overflow, size thresholds, seed-dependent behaviour or failure paths (state left behind by a call that raises) -- earlier rounds "
+                     "did those.  Earlier rounds already produced these changes, so choose something different: {prev}.")
     for pid in sys.argv[2:]:
         p = props[pid]; name = pid + suffix
+        if suffix == "l":
+            EXTRA = EXTRA_L_A if int(pid[1:]) % 2 else EXTRA_L_C
         wt = f'/tmp/wt/{name}'; out = f'/tmp/mut/{name}'
         os.makedirs(out, exist_ok=True)
         prev = []
